@@ -352,6 +352,124 @@ def classify_real(case):
     return [f"levels={case['levels']}", case["method"]], True
 
 
+# ------------------------------------------------------------------------------------ adaptive engine, real coupling
+class _Probe:
+    """stands for the right-jump probability in the coupling's comparison and records the variate it is compared with"""
+    __array_ufunc__ = None  # numpy scalars then defer to the reflected operators below
+    __slots__ = ("p", "rec", "level")
+
+    def __init__(self, p, rec, level):
+        self.p, self.rec, self.level = p, rec, level
+
+    def _seen(self, u):
+        for v in np.asarray(u, dtype=float).ravel():
+            self.rec.append((self.level, float(v)))
+
+    def __gt__(self, u):
+        self._seen(u)
+        return self.p > u
+
+    def __ge__(self, u):
+        self._seen(u)
+        return self.p >= u
+
+    def __lt__(self, u):
+        self._seen(u)
+        return self.p < u
+
+    def __le__(self, u):
+        self._seen(u)
+        return self.p <= u
+
+    def __float__(self):
+        return float(self.p)
+
+
+@st.composite
+def strat_adaptive(draw, tier):
+    return {"params": {"sigma": draw(_f(0.05, 0.3)), "p": draw(_f(0.3, 0.7)), "eta1": draw(_f(8.0, 20.0)),
+                       "eta2": draw(_f(8.0, 20.0)), "intensity": draw(_f(2.0, 8.0))},
+            "initial_level": 2, "extra_levels": draw(st.integers(0, 2)),  # Giles' criterion reads three levels: L0 >= 2
+            "paths": draw(st.integers(8, 40)), "seed": draw(st.sampled_from([5, 77, 4242])),
+            "rmse_rel": draw(_f(0.004, 0.03)), "maturity": draw(_f(0.3, 1.0)),
+            "prior": [draw(st.integers(0, 50)), draw(st.integers(51, 300))],
+            "method": draw(st.sampled_from(["BINARYSEARCHTREEADAPTED1D", "INVERSION", "ALIAS", "TABLE"]))}
+
+
+def _run_adaptive(case, prior, clock_value):
+    from rpylib.distribution.sampling import SamplingMethod
+    from rpylib.grid.spatial import CTMCUniformGrid
+    from rpylib.montecarlo.configuration import ConfigurationMultiLevel, ConvergenceRates
+    from rpylib.montecarlo.multilevel.engine import Engine
+    from rpylib.process.coupling import couplingmarkovchain as cm
+    from rpylib.product.payoff import Forward
+    from rpylib.product.product import Product
+    from rpylib.product.underlying import Spot
+
+    spec = {"family": "hem", "params": case["params"], "exp": {"spot": 100.0, "r": 0.02, "d": 0.0}}
+    model = build_model(spec)
+    grid = CTMCUniformGrid(h=0.1, model=model, truncation_probability=0.999)
+    cp = cm.CouplingMarkovChain(model=model, method=SamplingMethod[case["method"]], grid=grid)
+    config = ConfigurationMultiLevel(convergence_rates=ConvergenceRates(1.0, 2.0, 1.0), initial_level=case["initial_level"],
+                                     maximum_level=case["initial_level"] + case["extra_levels"],
+                                     initial_mc_paths=case["paths"], seed=case["seed"], nb_of_processes=1)
+    engine = Engine(configuration=config, coupling_process=cp)
+    product = Product(payoff_underlying=Spot(), payoff=Forward(strike=100.0), maturity=case["maturity"])
+    rec = []
+    saved = cm.CouplingSimulation.__dict__["probability_to_right_jump"]  # a staticmethod (grid, mass, increment)
+    orig = cm.CouplingSimulation.probability_to_right_jump
+
+    def probing(grid_, mass, increment):
+        return _Probe(orig(grid_, mass, increment), rec, round(float(np.log2(0.1 / grid_.h))))
+
+    _consume(prior)
+    cm.CouplingSimulation.probability_to_right_jump = staticmethod(probing)
+    try:
+        with _SeedSpy(clock_value=clock_value):
+            stats = engine.price(product, case["rmse_rel"] * 100.0)
+    finally:
+        cm.CouplingSimulation.probability_to_right_jump = saved
+    nl = [int(v) for v in stats.mlmc_results.Nl]
+    fine = [np.array(stats.simulation_payoff_with_fine_process(l), dtype=float) for l in range(len(nl))]
+    return rec, nl, fine
+
+
+def body_adaptive(case):
+    out = []
+    detail = f"case={case}"
+    rec, nl, fine = _run_adaptive(case, case["prior"][0], 1_700_000_000.0)
+    rec2, nl2, fine2 = _run_adaptive(case, case["prior"][1], 1_700_012_345.0)
+    tag = "C08/adaptive-real-coupling"
+    if nl != nl2 or any(not np.array_equal(x, y) for x, y in zip(fine, fine2)) or rec != rec2:
+        out.append(Violation(f"{tag}/same-seed-different-results", f"sample sizes {nl} vs {nl2}; {detail}"))
+    us = [u for _, u in rec]
+    if len(set(us)) != len(us):
+        first = {}
+        where = None
+        for lv, u in rec:
+            if u in first:
+                where = (first[u], lv)
+                break
+            first[u] = lv
+        out.append(Violation(f"{tag}/two-coupling-decisions-use-the-same-uniform",
+                             f"{len(us) - len(set(us))} of {len(us)} variates compared with the right-jump probability occur "
+                             f"twice, e.g. on levels {where}; sample sizes {nl}; {detail}"))
+    allf = np.concatenate(fine) if fine else np.array([])
+    if len(np.unique(allf)) != len(allf):
+        out.append(Violation(f"{tag}/two-samples-share-their-variates", f"repeated fine sample values; sizes {nl}; {detail}"))
+    out.append(Violation(f"LABEL:levels={len(nl)}"))
+    out.append(Violation("LABEL:coupling-decisions>=100" if len(us) >= 100 else "LABEL:coupling-decisions<100"))
+    if len(nl) > case["initial_level"] + 1:
+        out.append(Violation("LABEL:level-added"))
+    if len(us) >= 100 and len(nl) >= 3:
+        out.append(Violation("NONTRIVIAL"))
+    return out
+
+
+def classify_adaptive(case):
+    return [case["method"], f"initial_level={case['initial_level']}"], False
+
+
 # ------------------------------------------------------------------------------------ worker processes
 def enum_mp(tier):
     cases = []
@@ -403,4 +521,12 @@ SUBCHECKS = [
              rule="standard engine with 2..4 worker processes x path counts (enumerated): every index written once, "
                   "stored samples pairwise distinct",
              enumerate=enum_mp, shards={"quick": 6, "thorough": 12}, exhaustive=False),
+    SubCheck("adaptive-engine-real-coupling", body_adaptive, classify_adaptive,
+             rule="adaptive multilevel engine (Engine.price: several passes, levels copied from the previous one and "
+                  "added) on a real CouplingMarkovChain (HEM, four samplers), run twice with the same seed: identical "
+                  "sample sizes, samples and coupling decisions; every variate compared with the right-jump probability "
+                  "(recorded at the comparison by a probe standing for the probability) occurs once over all levels and "
+                  "passes; non-trivial = at least 3 levels and 100 coupling decisions",
+             strategy=strat_adaptive, budget={"quick": 48, "thorough": 640}, shards={"quick": 16, "thorough": 16},
+             essential_labels=("level-added",)),
 ]
